@@ -18,3 +18,102 @@ Theorem needMerge_monotone : forall u u' m m' : Z,
 Proof.
   intros u u' m m' Hu Hm. unfold pcache_needMerge. rewrite !Z.ltb_lt. nia.
 Qed.
+
+(* ================================================================== *)
+(* phase 2: the per-record decisions of Refresh (model/C06_PCache.v apply_entry, settle, upd_of,
+   finish, view_of), gen/Gen_Funcs_pcache.v fragments of ProviderCache.Refresh / getReadOnly *)
+From stdpp Require Import gmap.
+From Coq Require Import String.
+From Proofs Require Import GenTie_Lib.
+Import ListNotations.
+
+(* reading of time.Time: None = the zero time *)
+Definition tm := option Z.
+Definition tm_zero (t : tm) : bool := match t with None => true | Some _ => false end.
+Definition tm_after (a b : tm) : bool :=        (* a.After(b) *)
+  match a, b with
+  | Some x, Some y => (y <? x)%Z
+  | Some _, None => true
+  | None, _ => false
+  end.
+Definition tm_add (t : tm) (d : Z) : tm := match t with Some x => Some (x + d)%Z | None => Some d end.
+
+(* Refresh, a record for a provider that is already in the write map (apply_entry, Some e):
+   seq is refreshed, the expiry is cleared, and the record replaces the stored one iff its
+   (effective) time is later *)
+Theorem tie_Refresh_accept_newer : forall (seq' : N) (e : entry) (r : rec) (txt : list N) (exp0 : tm),
+  match pcache_Refresh_accept_newer (option rec) tm (Some 0%Z) (fun _ => (r_time r, None)) None tm_after tm_zero
+          txt exp0 (Some (e_last e)) (e_prov e) (Z.of_N (e_seq e)) (e_dirty e) (Some r) (Z.of_N seq') with
+  | FFall (sq, ex, last, prov, dirty, _) | FContinue _ (sq, ex, last, prov, dirty, _) =>
+      let e' := apply_entry seq' (Some e) r in
+      sq = Z.of_N (e_seq e') /\ ex = e_expires e' /\ last = Some (e_last e') /\ prov = e_prov e' /\ dirty = e_dirty e'
+  | _ => False
+  end.
+Proof.
+  intros. unfold pcache_Refresh_accept_newer, apply_entry, eff_time.
+  destruct (r_time r) as [t|]; cbn.
+  - destruct (e_last e <? t)%Z; cbn; repeat split; reflexivity.
+  - destruct (e_last e <? 0)%Z; cbn; repeat split; reflexivity.
+Qed.
+
+(* the loop over pc.write (settle / upd_of, repaired code): an absent provider gets an expiry, an
+   expired one is deleted and masked in the update map, a present one with unpublished changes is
+   published *)
+Definition has_stmt (s : string) (tr : list string) : bool := existsb (String.eqb s) tr.
+
+Theorem tie_Refresh_publish_step : forall (now ttl : Z) (seq' : N) (e : entry) (ou : option (option rec)),
+  match pcache_Refresh_publish_step tm tm_add tm_after tm_zero (Some now) (e_expires e)
+          (Z.of_N (e_seq e)) (e_dirty e) ttl (Z.of_N seq') with
+  | FFall (ex, dirty, tr) =>
+      settle true ttl now seq' e =
+        (if has_stmt "delete(pc.write, pid)" tr then None
+         else Some (Entry (e_prov e) ex (e_last e) (e_seq e) (e_upd e) dirty)) /\
+      upd_of true now seq' (Some e) ou =
+        (if has_stmt "updates[pid] = nil" tr then Some None
+         else if has_stmt "updates[pid] = apiToCacheInfo(cinfo.provider)" tr then Some (e_prov e)
+         else ou)
+  | _ => False
+  end.
+Proof.
+  intros. unfold pcache_Refresh_publish_step, settle, upd_of, publish_now.
+  replace (Z.of_N (e_seq e) =? Z.of_N seq')%Z with (e_seq e =? seq')%N
+    by (destruct (N.eqb_spec (e_seq e) seq'); symmetry; [apply Z.eqb_eq|apply Z.eqb_neq]; lia).
+  destruct (e_seq e =? seq')%N; cbn [negb].
+  - destruct e as [p x l sq u d]; cbn [e_dirty e_expires e_prov e_last e_seq e_upd].
+    destruct d; cbn; split; reflexivity.
+  - destruct e as [p x l sq u d]; cbn [e_dirty e_expires e_prov e_last e_seq e_upd].
+    destruct x as [x|]; cbn [tm_zero tm_after tm_add].
+    + destruct (x <? now)%Z; cbn; split; reflexivity.
+    + cbn. replace (now + ttl)%Z with (now + ttl)%Z by reflexivity. split; reflexivity.
+Qed.
+
+(* the main map is regenerated exactly when needMerge says so (finish) *)
+Theorem tie_Refresh_merge_decision : forall (u m : nat),
+  match pcache_Refresh_merge_decision (Z.of_nat m) (Z.of_nat u) with
+  | FReturn _ tr => real_need_merge u m = false /\ has_stmt "pc.read.Store(&readOnly{m: read.m, u: updates})" tr = true
+  | FFall _ => real_need_merge u m = true
+  | _ => False
+  end.
+Proof.
+  intros. unfold pcache_Refresh_merge_decision. rewrite <- tie_needMerge.
+  destruct (real_need_merge u m); cbn; auto.
+Qed.
+
+(* getReadOnly looks in the update map first, then in the main map (view_of = (ru ∪ rm) !! pid) *)
+Theorem tie_getReadOnly_lookup : forall (ru rm : gmap N (option rec)) (pid : N) (miss : option rec * option string),
+  match pcache_getReadOnly_lookup (option rec) miss
+          (default None (rm !! pid)) (default None (ru !! pid))
+          (bool_decide (is_Some (rm !! pid))) (bool_decide (is_Some (ru !! pid))) with
+  | FFall (rpi, _) =>
+      match view_of ru rm pid with
+      | Some v => rpi = v
+      | None => rpi = fst miss /\ snd miss = None           (* fetchMissing's answer *)
+      end
+  | FReturn _ _ => view_of ru rm pid = None /\ snd miss <> None
+  | _ => False
+  end.
+Proof.
+  intros. unfold pcache_getReadOnly_lookup, view_of. rewrite lookup_union.
+  destruct (ru !! pid) as [a|], (rm !! pid) as [b|]; cbn; try reflexivity.
+  destruct miss as [v [er|]]; cbn; auto; try (split; [reflexivity|discriminate]).
+Qed.
